@@ -279,7 +279,10 @@ class Model:
         return fac, tol
 
     def hmax(self, n):
-        return float(np.max(np.abs(self.hfun(_bin_freqs(2 * n, self.dt)))))
+        # (with force_real the response is looked up at |f|: a response that is not even in f -
+        # a Gaussian centred on a positive frequency - is larger there than at the signed bins)
+        f = _bin_freqs(2 * n, self.dt)
+        return float(max(np.max(np.abs(self.hfun(f))), np.max(np.abs(self.hfun(np.abs(f))))))
 
 
 # ---------------------------------------------------------------------------
